@@ -104,7 +104,30 @@ func envelopeExec(c Case) Event {
 		return x
 	}
 	if c.str("kind") == "algebra" {
-		a, b, cc := envFromCase(c["a"]), envFromCase(c["b"]), envFromCase(c["c"])
+		// se: the envelopes are built at scale 2^se (exact), everything read back is divided by the scale again
+		sc := 1.0
+		if _, ok := c["se"]; ok {
+			sc = math.Ldexp(1, c.num("se"))
+		}
+		scaleEnv := func(e geom.Envelope) geom.Envelope {
+			mn, mx, ok := e.MinMaxXYs()
+			if !ok || sc == 1 {
+				return e
+			}
+			return geom.NewEnvelope(mn.Scale(sc), mx.Scale(sc))
+		}
+		li := func(v float64) int { return li(v / sc) }
+		envInts := func(e geom.Envelope) []int {
+			mn, mx, ok := e.MinMaxXYs()
+			if !ok {
+				return []int{}
+			}
+			return []int{li(mn.X), li(mn.Y), li(mx.X), li(mx.Y)}
+		}
+		geomDesc := func(g geom.Geometry) Event {
+			return geomDesc(g.TransformXY(func(p geom.XY) geom.XY { return p.Scale(1 / sc) }))
+		}
+		a, b, cc := scaleEnv(envFromCase(c["a"])), scaleEnv(envFromCase(c["b"])), scaleEnv(envFromCase(c["c"]))
 		ev["a"], ev["b"], ev["c"] = caseInts(c["a"]), caseInts(c["b"]), caseInts(c["c"])
 		ev["ra"], ev["rb"] = envInts(a), envInts(b)
 		ev["join"] = envInts(a.ExpandToIncludeEnvelope(b))
@@ -113,7 +136,7 @@ func envelopeExec(c Case) Event {
 			p := geom.XY{X: bmn.X, Y: bmx.Y}
 			ev["expandxy"] = envInts(a.ExpandToIncludeXY(p))
 			// TransformXY with a quarter turn, a stretch and a shift (orientation of both axes changes)
-			ev["txy"] = envInts(a.TransformXY(func(q geom.XY) geom.XY { return geom.XY{X: 7 - q.Y, Y: 2*q.X + 1} }))
+			ev["txy"] = envInts(a.TransformXY(func(q geom.XY) geom.XY { return geom.XY{X: 7*sc - q.Y, Y: 2*q.X + sc} }))
 			ev["contains"] = a.Contains(p)
 		}
 		ev["intersects"], ev["intersectsrev"] = a.Intersects(b), b.Intersects(a)
@@ -121,7 +144,7 @@ func envelopeExec(c Case) Event {
 		d, ok := a.Distance(b)
 		ev["distok"] = ok
 		if ok {
-			ev["dist2"] = roundInt(d * d)
+			ev["dist2"] = roundInt(d / sc * (d / sc))
 		}
 		switch {
 		case a.IsEmpty():
@@ -138,7 +161,7 @@ func envelopeExec(c Case) Event {
 		if (a.IsPoint() && a.IsLine()) || (a.IsLine() && a.IsRectangle()) || (a.IsPoint() && a.IsRectangle()) || (a.IsEmpty() && (a.IsPoint() || a.IsLine() || a.IsRectangle())) {
 			ev["kind2"] = "ambiguous"
 		}
-		ev["width"], ev["height"], ev["area"] = li(a.Width()), li(a.Height()), li(a.Area())
+		ev["width"], ev["height"], ev["area"] = li(a.Width()), li(a.Height()), li(a.Area()/sc)
 		if xy, ok := a.Center().XY(); ok {
 			ev["center2"] = []int{li(2 * xy.X), li(2 * xy.Y)}
 		} else {
